@@ -307,7 +307,7 @@ def multipitch(r, n_frames=None, base_step=None):
 
 def related_multipitch(r, times, frames):
     kind = r.choice(["same_times", "same_times", "other_times", "shifted_times",
-                     "shorter", "longer"])
+                     "shorter", "longer", "sparse_times"])
     est_frames = []
     for f in frames:
         fs = []
@@ -328,6 +328,14 @@ def related_multipitch(r, times, frames):
         return times.copy(), est_frames
     if kind == "other_times":
         et, ef = multipitch(r)
+        return et, ef
+    if kind == "sparse_times":
+        # a coarse estimate (one frame every 1-4 s) over the reference span; the
+        # 1/256 offset keeps nearest-frame ties away
+        step = r.choice([1.0, 2.0, 4.0])
+        n = int((times[-1] - times[0]) // step) + 2
+        et = times[0] + 1 / 256.0 + step * np.arange(n)
+        ef = [est_frames[int(np.argmin(np.abs(times - t)))].copy() for t in et]
         return et, ef
     if kind == "shifted_times":
         # offset by 1/256 so that nearest-frame ties cannot occur
